@@ -103,6 +103,11 @@ def cstep (s : CSt) : List String → CSt × List String
       (s2, outs2.toList)
     | _, _ => (s, ["bad-op"])
   | ["reset"] => (cinit, ["ok"])
+  -- `Clone` / `Default` (track apileft): the model is a function of the chunker VALUE, so replacing the
+  -- object by its clone, running a clone beside it, or building one through `Default` changes nothing
+  | ["clone_swap", m] => if m = "keep" || m = "drop" then (s, ["ok"]) else (s, ["bad-op"])
+  | ["fork"] => (s, ["ok"])
+  | ["check_default"] => (s, ["ok"])
   | _ => (s, ["bad-op"])
 
 def chunkerFamily : Family := { σ := CSt, init := cinit, step := cstep }
@@ -203,6 +208,10 @@ def rstep (s : RSt) : List String → RSt × List String
         | some (s2, outs2) => (s2, outs2.toList)
     | _, _ => (s, ["bad-op"])
   | ["reset"] => (rinit, ["ok"])
+  -- `Clone` / `Default` (track apileft), as for the chunker
+  | ["clone_swap", m] => if m = "keep" || m = "drop" then (s, ["ok"]) else (s, ["bad-op"])
+  | ["fork"] => (s, ["ok"])
+  | ["check_default"] => (s, ["ok"])
   | _ => (s, ["bad-op"])
 
 def readerFamily : Family := { σ := RSt, init := rinit, step := rstep }
